@@ -20,7 +20,7 @@ from .common import Nat, Raw, coq
 def gen_spec(rng, ne16=False, max_blocks=4, first=None):
     """derive a network.  ne16=True restricts kernels to {1,3} (NE16 cost model).  `first` forces the
     first block kind ('dw', 'addin', ...) so that rare producer->consumer pairs are always reached."""
-    cin = rng.randint(1, 4)
+    cin = rng.randint(2 if ne16 else 1, 4)    # a 1->1 conv. is depthwise for the library; NE16 models only 3x3 depthwise
     hw = rng.choice([4, 6, 8])
     nodes = [{'k': 'in', 'c': cin, 'hw': hw}]
     st = {'cur': 0, 'c': cin, 'hw': hw}
@@ -224,6 +224,21 @@ def coq_ir(nodes):
         elif k == 'add':
             out.append('NAdd %s %s' % (coq(Nat(nd['src'][0])), coq(Nat(nd['src'][1]))))
     return Raw('[' + '; '.join(out) + ']')
+
+
+def input_group_requantized(nodes):
+    """True iff a depthwise conv. / add sits in the sharing group of the network input (reached from the
+    input through propagating nodes only)"""
+    grp = {0}
+    for i, nd in enumerate(nodes):
+        if i == 0:
+            continue
+        srcs = nd['src'] if isinstance(nd['src'], list) else [nd['src']]
+        if nd['k'] in ('bn', 'relu', 'pool', 'flatten') and srcs[0] in grp:
+            grp.add(i)
+        elif (is_dw(nd) or nd['k'] == 'add') and any(s in grp for s in srcs):
+            return True
+    return False
 
 
 MPS_KINDS = ('in', 'conv', 'dw', 'lin', 'add')
